@@ -266,7 +266,7 @@ func crashClass(sig string) string {
 	fields := strings.Fields(s)
 	var keep []string
 	for _, f := range fields {
-		if strings.HasPrefix(f, "0x") || strings.ContainsAny(f, "0123456789") && len(f) > 12 {
+		if strings.HasPrefix(f, "0x") || strings.ContainsAny(f, "0123456789") && len(f) > 12 || isHexish(f) {
 			continue
 		}
 		keep = append(keep, f)
@@ -275,6 +275,19 @@ func crashClass(sig string) string {
 		keep = keep[:12]
 	}
 	return strings.Join(keep, " ")
+}
+
+// isHexish: short ids (uuid prefixes) that differ from run to run
+func isHexish(f string) bool {
+	if len(f) < 4 || !strings.ContainsAny(f, "0123456789") {
+		return false
+	}
+	for _, r := range f {
+		if !(r >= '0' && r <= '9' || r >= 'a' && r <= 'f' || r == '-') {
+			return false
+		}
+	}
+	return true
 }
 
 func tailOf(s string, n int) string {
